@@ -85,14 +85,14 @@ def gaps : List (String × SrcSet) := [
   ("small-set", .ofString "s"), ("format-lowercase", .ofString "s"), ("small-string-length", .ofString "s"), ("small-int-positive", .ofString "s"),
   -- the same on derived inputs (prefault / coerced / overwritten values)
   ("small-string-prefault", .ofString "s"), ("small-int-prefault", .ofString "s"), ("small-string-coerced", .ofString "s"),
-  ("small-string-trimmed", .ofString "s"), ("small-slice-prefault", .ofString "sp"),
+  ("small-string-trimmed", .ofString "s"), ("small-slice-prefault", .ofString "s"),
   -- container / union / literal / network-format schemas ignore their own message for their type issue
-  ("type-object", .ofString "s"), ("type-slice", .ofString "s"), ("type-array", .ofString "s"), ("type-record", .ofString "s"),
-  ("type-map", .ofString "s"), ("type-literal", .ofString "s"), ("union", .ofString "s"), ("union-discriminated", .ofString "s"),
-  ("format-ipv4-type", .ofString "s"), ("format-url-type", .ofString "s"), ("type-set", .ofString "s"), ("union-xor", .ofString "s"),
-  -- issues finalised with a fresh ParseContext: the per-parse map is lost as well
-  ("small-slice", .ofString "sp"), ("big-slice", .ofString "sp"), ("small-slice-nonempty", .ofString "sp"), ("big-array-length", .ofString "sp"),
-  ("keys-strict-object", .ofString "sp"), ("key-record", .ofString "p"), ("element-array", .ofString "p"),
+  ("type-array", .ofString "s"), 
+  ("type-literal", .ofString "s"), ("union", .ofString "s"), ("union-discriminated", .ofString "s"),
+  ("format-ipv4-type", .ofString "s"), ("format-url-type", .ofString "s"), ("union-xor", .ofString "s"),
+  -- container-level issues (the per-parse map reaches them since 7990727; the schema's own message still does not)
+  ("small-slice", .ofString "s"), ("big-slice", .ofString "s"), ("small-slice-nonempty", .ofString "s"), ("big-array-length", .ofString "s"),
+  ("keys-strict-object", .ofString "s"), 
   -- issues raised with a preset message: nothing is consulted
   ("type-field-missing", .ofString "spgl"), ("value-enum", .ofString "pgl"),
   ("custom-refine-string", .ofString "spgl"), ("custom-refine-int", .ofString "spgl"),
@@ -101,8 +101,8 @@ def gaps : List (String × SrcSet) := [
 def gapOf (leaf : String) : SrcSet := (gaps.lookup leaf).getD SrcSet.empty
 
 /-- a position that does not forward the caller's context to the schema nested in it (regenerated `Gen.positions`: today
-    only the KEY schema of a record — types/record.go parseSchemaValueAny parses the key without the context, open finding
-    `wire:@record-key:missing-p`) loses the per-parse map for every issue below it -/
+    none; before eac1fcf the KEY schema of a record — types/record.go parseSchemaValueAny parsed the key without the context,
+    finding `wire:@record-key:missing-p`) loses the per-parse map for every issue below it -/
 def posGap (wrapper : String) : SrcSet :=
   match Gozod.Gen.positions.find? (fun p => p.name == wrapper) with
   | some p => if p.forwardsCtx then SrcSet.empty else .ofString "p"
@@ -217,15 +217,12 @@ def siteGaps : List (String × SrcSet) := [
   ("internal/engine/parser.go:parsePrimitiveStrictWithChecks:CreateInvalidTypeError", .ofString "s"),
   ("internal/engine/parser.go:handleNilPointerStrict:CreateInvalidTypeError", .ofString "s"),
   ("internal/engine/parser.go:applyTransformToResult:CreateInvalidTypeError", .ofString "s"),
-  ("internal/engine/parser.go:parseComplexValue:CreateInvalidTypeError", .ofString "s"),
   ("internal/issues/creators.go:extractFirstRawIssue:CreateIssue", .ofString "spgl"),
-  ("internal/issues/creators.go:CreateArrayValidationIssues:FinalizeIssue", .ofString "p"),
   ("internal/issues/finalize.go:FinalizeIssue:MapPropertiesToIssue", .ofString "p"),
   ("internal/issues/finalize.go:MapPropertiesToIssue:FinalizeIssue", .ofString "p"),
   ("types/array.go:ZodArray.Parse:CreateInvalidTypeError", .ofString "s"),
   ("types/array.go:ZodArray.StrictParse:CreateTypeConversionError", .ofString "s"),
   ("types/array.go:ZodArray.validate:CreateInvalidTypeError", .ofString "s"),
-  ("types/array.go:ZodArray.validate:CreateArrayValidationIssues", .ofString "p"),
   ("types/bigint.go:ZodBigInt.parseNilInput:CreateNonOptionalError", .ofString "s"),
   ("types/bigint.go:ZodBigInt.parseNilInput:CreateInvalidTypeError", .ofString "s"),
   ("types/discriminated_union.go:ZodDiscriminatedUnion.Parse:CreateInvalidSchemaError", .ofString "s"),
@@ -234,7 +231,6 @@ def siteGaps : List (String × SrcSet) := [
   ("types/discriminated_union.go:ZodDiscriminatedUnion.parseVariant:CreateInvalidUnionError", .ofString "s"),
   ("types/discriminated_union.go:ZodDiscriminatedUnion.StrictParse:CreateTypeConversionError", .ofString "s"),
   ("types/enum.go:ZodEnum.validateEnum:CreateIssue", .ofString "spgl"),
-  ("types/enum.go:ZodEnum.validateEnum:CreateArrayValidationIssues", .ofString "p"),
   ("types/function.go:newFuncTypeError:FinalizeIssue", .ofString "s"),
   ("types/function.go:ZodFunction.validateInput:Parse", .ofString "p"),
   ("types/function.go:ZodFunction.validateOutput:Parse", .ofString "p"),
@@ -254,8 +250,6 @@ def siteGaps : List (String × SrcSet) := [
   ("types/map.go:ZodMap.Parse:CreateTypeConversionError", .ofString "s"),
   ("types/map.go:ZodMap.StrictParse:CreateTypeConversionError", .ofString "s"),
   ("types/map.go:ZodMap.extractType:CreateNonOptionalError", .ofString "s"),
-  ("types/map.go:ZodMap.extractType:CreateInvalidTypeError", .ofString "s"),
-  ("types/map.go:ZodMap.validateMap:CreateArrayValidationIssues", .ofString "p"),
   ("types/map.go:ZodMap.collectErrors:CreateIssue", .ofString "spgl"),
   ("types/never.go:newNeverValidator:CreateInvalidTypeError", .ofString "s"),
   ("types/nil.go:nilValidator:CreateInvalidTypeError", .ofString "s"),
@@ -263,29 +257,22 @@ def siteGaps : List (String × SrcSet) := [
   ("types/object.go:ZodObject.extractObject:CreateTypeConversionError", .ofString "sp"),
   ("types/object.go:collectFieldErrors:CreateIssue", .ofString "spgl"),
   ("types/object.go:ZodObject.validateObject:CreateIssue", .ofString "spgl"),
-  ("types/object.go:ZodObject.validateObject:CreateArrayValidationIssues", .ofString "p"),
   ("types/record.go:ZodRecord.Parse:CreateTypeConversionError", .ofString "s"),
   ("types/record.go:ZodRecord.StrictParse:CreateTypeConversionError", .ofString "s"),
   ("types/record.go:ZodRecord.validateRecord:CreateInvalidTypeError", .ofString "s"),
-  ("types/record.go:ZodRecord.parseSchemaValueAny:Parse", .ofString "p"),
-  ("types/record.go:ZodRecord.parseSchemaValueAny:Call", .ofString "p"),
   ("types/set.go:ZodSet.Parse:CreateTypeConversionError", .ofString "s"),
-  ("types/set.go:ZodSet.validateForEngine:CreateArrayValidationIssues", .ofString "p"),
   ("types/set.go:ZodSet.collectErrors:CreateIssue", .ofString "spgl"),
   ("types/slice.go:ZodSlice.validateForEngine:CreateIssue", .ofString "spgl"),
-  ("types/slice.go:ZodSlice.validateForEngine:CreateArrayValidationIssues", .ofString "p"),
   ("types/struct.go:ZodStruct.Parse:CreateTypeConversionError", .ofString "s"),
   ("types/struct.go:ZodStruct.createStructTypeError:CreateCustomError", .ofString "s"),
   ("types/struct.go:ZodStruct.createStructTypeError:CreateInvalidTypeError", .ofString "s"),
   ("types/struct.go:ZodStruct.parseStructWithDefaults:CreateInvalidTypeError", .ofString "s"),
   ("types/struct.go:ZodStruct.parseStructWithDefaults:CreateIssue", .ofString "spgl"),
-  ("types/struct.go:ZodStruct.parseStructWithDefaults:CreateArrayValidationIssues", .ofString "p"),
   ("types/tuple.go:ZodTuple.Parse:CreateInvalidTypeError", .ofString "s"),
   ("types/tuple.go:ZodTuple.StrictParse:CreateTypeConversionError", .ofString "s"),
   ("types/tuple.go:collectParseIssues:CreateIssue", .ofString "spgl"),
   ("types/tuple.go:ZodTuple.validateTupleForEngine:CreateTooSmallError", .ofString "s"),
   ("types/tuple.go:ZodTuple.validateTupleForEngine:CreateTooBigError", .ofString "s"),
-  ("types/tuple.go:ZodTuple.validateTupleForEngine:CreateArrayValidationIssues", .ofString "p"),
   ("types/union.go:ZodUnion.validate:CreateInvalidSchemaError", .ofString "s"),
   ("types/union.go:ZodUnion.validate:CreateInvalidUnionError", .ofString "s"),
   ("types/union.go:ZodUnion.StrictParse:CreateTypeConversionError", .ofString "s"),
@@ -326,8 +313,10 @@ theorem c18_sites_all_partial {ρ : Type} (st : IssueSite) (hst : st ∈ Gozod.G
   rw [dropSources_unconfigured _ _ (fun h => hc (h1 h)) (fun h => hs (h2 h)) (fun h => hp (h3 h)) (fun h => hg (h4 h))
     (fun h => hl (h5 h)), finalize_priority]
 
-/-- witness (snapshot of a row of the pinned tree): `issues.CreateArrayValidationIssues` finalises with
-    `core.NewParseContext()` — the per-parse map of the caller is dropped, and the message differs -/
+/-- witness (snapshot of a row of the table before 7990727, kept as a constant: the same shape as the rows that still
+    drop the context — intersection's merge errors, MapPropertiesToIssue's element_error):
+    `issues.CreateArrayValidationIssues` finalised with `core.NewParseContext()` — the per-parse map of the caller is
+    dropped, and the message differs -/
 def arrayValidationSnapshot : IssueSite :=
   ⟨"internal/issues/creators.go:CreateArrayValidationIssues:FinalizeIssue#1", "internal/issues/creators.go:CreateArrayValidationIssues:FinalizeIssue",
    453, true, "finalize", "?", "", "fresh", "fallback", "flow", "flow", ["small-slice"]⟩
@@ -339,7 +328,7 @@ theorem c18_sites_full_false :
       = "built-in" := by
   decide
 
-example : Gozod.Gen.issueSites.any (fun s => s.gkey == arrayValidationSnapshot.gkey && s.ctx == "fresh") = true := by decide +kernel
+example : Gozod.Gen.issueSites.any (fun s => s.reaches && s.ctx == "fresh") = true := by decide +kernel
 
 /-- **c18_static_dynamic**: the static table and the run agree — a source that the go/ast table says a call drops is never
     observed to pass at a leaf whose issue that very call finalised (`reached`, captured from the call stack at run time). -/
@@ -431,9 +420,9 @@ theorem c18_every_depth {ρ : Type} (ps : List Position) (hps : ps.all (·.forwa
 
 def minusParse (a : SrcSet) : SrcSet := { a with parse := false }
 
-/-- (leaf, position) pairs outside the rule: a Literal key schema of a record is matched against the literal's values
-    (exhaustive record keys), not parsed through parseSchemaValueAny, so its issue keeps the per-parse map -/
-def positionExceptions : List (String × String) := [("type-literal", "record-key")]
+/-- (leaf, position) pairs outside the rule (none since eac1fcf: before it a record parsed its key schema without the context,
+    except a Literal key, which is matched against the literal's values) -/
+def positionExceptions : List (String × String) := []
 
 def positionOk (s : Site) : Bool :=
   positionExceptions.contains (s.leaf, s.wrapper) ||
